@@ -40,6 +40,23 @@ def run_demo(d, root):
     return r.returncode
 
 
+BASELINE_FAIL = {
+    "test_to_read_only_file_forbidden", "test_help_is_default", "test_lint_read_errors", "test_lint_lines_read_errors",
+    "test_reuse_info_of_uncommentable_file", "test_read_error[False]", "test_read_error[True]",
+}
+
+
+def run_suite(root):
+    """the project's own test-suite on the patched tree: only the root-related baseline failures are allowed"""
+    env = dict(os.environ, PYTHONPATH=os.path.join(root, "src"), PYTHONDONTWRITEBYTECODE="1")
+    r = sh([PY, "-m", "pytest", "-q", "-p", "no:cacheprovider", "-n", "12", "tests", "--doctest-modules",
+            "src/reuse/__init__.py", "src/reuse/_util.py"], cwd=root, env=env, timeout=1800)
+    failed = sorted(set(l.split("::")[-1].split(" ")[0] for l in r.stdout.splitlines() if l.startswith(("FAILED", "ERROR"))))
+    extra = [f for f in failed if f not in BASELINE_FAIL]
+    tail = [l for l in r.stdout.splitlines() if " passed" in l or " failed" in l][-1:]
+    return {"extra_failures": extra, "summary": tail[0] if tail else r.stdout[-200:]}
+
+
 def run_check(pid, tier):
     t0 = time.time()
     r = sh([os.path.join(VERIF, "check"), pid, "--tier", tier], cwd=VERIF, timeout=3600,
@@ -55,6 +72,7 @@ def main():
     ap.add_argument("names", nargs="*")
     ap.add_argument("--tier", default="both", choices=["quick", "thorough", "both"])
     ap.add_argument("--also", default="")
+    ap.add_argument("--no-suite", action="store_true", help="skip re-running the project's test-suite on the patched tree")
     ap.add_argument("--scratch", action="store_true", help="apply the patches to a scratch worktree of /repo's HEAD instead of /repo itself")
     a = ap.parse_args()
     global REPO
@@ -98,6 +116,8 @@ def run(a):
         else:
             try:
                 res["demo_patched_exit"] = run_demo(d, REPO)
+                if not a.no_suite:
+                    res["suite_with_patch"] = run_suite(REPO)
                 for pid in pids:
                     tiers = ["quick", "thorough"] if a.tier == "both" else [a.tier]
                     for tier in tiers:
